@@ -334,6 +334,7 @@ func (h *FBDNSDB) Reload(s ReloadSignal) (err error) {
 	h.reloadMu.Lock()
 	defer h.reloadMu.Unlock()
 
+	verifYieldReload("reload_locked")
 	switch s.Kind {
 	case FullReload:
 		if s.Payload == "" {
@@ -356,14 +357,17 @@ func (h *FBDNSDB) Reload(s ReloadSignal) (err error) {
 		return
 	}
 
+	verifYieldReload("reload_done")
 	// if we didn't timeout and reloading finished without errors
 	h.dnsdb = newDB
 	h.dbConfig.Path = newPath
 
+	verifYieldReload("reload_swapped")
 	if h.cacheConfig.Enabled && h.lru != nil {
 		h.lru.Purge()
 	}
 
+	verifYieldReload("reload_purged")
 	if err := h.cleanupSignalFile(s); err != nil {
 		return err
 	}
